@@ -1,2 +1,4 @@
 pub mod model;
 pub mod rec;
+pub mod gen;
+pub mod viz;
